@@ -12,8 +12,8 @@ import (
 
 func init() {
 	register(&propDef{
-		id:  "C02",
-		run: runC02,
+		id:          "C02",
+		run:         runC02,
 		explanation: "Static analysis of the iterator stack: (1) comparer discipline in db_iter.go, iterator/*, table/reader.go and memdb (heap order, block seek, skip-list search go through the comparer); (2) the visibility and tombstone guards of dbIter.next/prev extracted from the SSA branch structure (an entry surfaces only when seq <= snapshot seq, kind==value and it is the first/greater user key; tombstones record the key so older versions are skipped); (3) probe construction in Seek and range conversion in newIterator; (4) no source is lost: every iterator obtained in newRawIterator / version.getIterators / compaction.newIterator flows into the merged iterator; (5) every movement method of every iterator.Iterator implementation tests the released state before touching anything. Each is a necessary condition of cursor equivalence; the direction-change state machines, range slicing at block boundaries and restart-point search are value-dependent and NOT decided.",
 		notCovered:  "direction-change state machines (dbIter.Prev, mergedIterator.Prev/Next, blockIter.Prev), range slicing at block and table boundaries, restart-point search — all value-dependent; cursor equivalence over all movement sequences",
 		assumptions: []string{"a user comparer satisfying the documented contract", "memdb / table iterators position correctly (C13, C14)"},
